@@ -221,7 +221,7 @@ func CheckC05(run *evid.Run) {
 				run.Violate("C05/op-error", det("op", s.Op, "codec", h.Codec), wit(), "honest %s failed under codec %s: %v", s.Op, h.Codec, res.Err)
 			}
 			if s.ExpectsError() {
-				run.Count("refused_operations", 1)
+				countRefused(run, s)
 			}
 			if s.Op == "fork" {
 				// the forked replica starts a new life; what it held before is not its past
